@@ -42,6 +42,8 @@ ACCEPTED_NULL = {
         'eidx is the index of a non-comment token found after tidx, so token_prev(eidx) finds at least the comment token at tidx',
     'filters.reindent.ReindentFilter._process_identifierlist:attribute':
         'IDLIST: a comma inside an IdentifierList is always followed by an item (group_identifier_list only joins `x , y`), so token_next finds a token',
+    'engine.grouping._group:argument `nidx` of engine.grouping.group_assignment.post (dereferenced there without a guard)':
+        'the call is guarded by valid_next(next_), and the valid_next of group_assignment (the only pass whose post looks up from nidx) rejects None; (nidx, next_) come from one lookup, so nidx is an index there',
     'sql.Function.get_parameters:attribute':
         'FUNCTION-HAS-PAREN: group_functions builds a Function only as [name ... Parenthesis], so the Parenthesis lookup succeeds',
     'filters.aligned_indent.AlignedIndentFilter._process_case:stored unchecked in a container':
@@ -70,12 +72,12 @@ def run(ctx):
     RL.check_singleton_lock(ctx, 'R7.7')
     # R7.6
     before = len(ctx.obs)
-    for r in ('R15.1', 'R15.2', 'R15.3', 'R15.4', 'R15.5'):
+    for r in ('R15.1', 'R15.2', 'R15.3', 'R15.4', 'R15.5', 'R15.6'):
         ctx.rule(r, '', floor=0)
     c15.run(ctx)
     for o in ctx.obs[before:]:
         o.rule = 'R7.6'
-    for r in ('R15.1', 'R15.2', 'R15.3', 'R15.4', 'R15.5'):
+    for r in ('R15.1', 'R15.2', 'R15.3', 'R15.4', 'R15.5', 'R15.6'):
         ctx.rules.pop(r, None)
         ctx.floors.pop(r, None)
 
